@@ -17,6 +17,7 @@ RULE = ("(operator, operand kinds incl. reflected forms and int/bool/LinCombBool
         "call must return. Non-trivial = at least one secret operand and (non-linear operator or boundary-class "
         "operand); distinct by (op, types, values, bitlength).")
 
+ARITH = {"add", "sub", "mul", "truediv", "floordiv", "mod", "divmod", "lshift", "rshift", "neg", "pos", "abs"}
 NONLINEAR = set(refsem.BINARY + refsem.UNARY + refsem.TERNARY) - {"add", "sub", "neg", "pos"}
 OPS = refsem.BINARY + refsem.UNARY + refsem.TERNARY + ["check_positive_n"]
 
@@ -76,6 +77,10 @@ def _judge(cfg, name, args, variant):
     if exp is refsem.RAISES:
         return ("returned-where-python-raises" + ex, "%s%r on %s returned %r where Python raises" % (name, tuple(vals), ts, got)), prog
     want = list(exp[1:])
+    # arithmetic on booleans yields integers (True + True == 2, 1 - True == 0 is an int): the result is an integer value
+    # whose later uses are integer operations, not a boolean whose |, ^, <, // mean something else
+    if name in ARITH and any(t not in "Ii" for t in gts) and ts != "B" * len(ts):
+        return ("wrong-kind", "%s%r on %s returned a value of kind %r; Python's result is an int" % (name, tuple(vals), ts, "".join(gts))), prog
     if len(got) != len(want) or any(not isinstance(g, int) for g in got):
         return ("wrong-value", "%s%r on %s returned %r (types %s), Python gives %r" % (name, tuple(vals), ts, got, gts, want)), prog
     for g, w in zip(got, want):
